@@ -267,3 +267,79 @@ Definition one_draw : unit -> prog Z unit Z := fun _ => Draw tt (fun d => Ret d)
 Definition region_run_before : pprog Z unit Z unit := PPut 2147483647 (PRet tt).
 Definition leaky_body : pprog Z unit Z Z := PGet (fun m => PDraw tt (fun d => PRet (d + m))).
 Definition clean_body : pprog Z unit Z Z := PDraw tt (fun d => PRet d).
+
+(* ---------------- the interpreter around the process: THE STRING-HASH SEED.
+   Python randomises the hashes of strings per interpreter process (PYTHONHASHSEED; random when
+   unset), and with them the iteration order of every set of strings (dicts keep insertion order,
+   but a dict filled while iterating a set inherits the set's).  A user's two runs are normally two interpreters, so "same seed and same inputs =>
+   same bytes" quantifies over the hash seed as well.  An interpreter process [iproc] is the
+   process of the previous section plus the hash seed it was started with; the seed is fixed for
+   the life of the interpreter: no program can write it.  A program that can look at it is a
+   family of process programs indexed by it ([hprog]).  "The output does not follow the iteration
+   order of a set of strings" is the predicate [hash_blind].  Nothing in Coq says that haptools
+   satisfies it - that is what the cross-interpreter stream of the correspondence runs tests
+   (run A and run B in two fresh interpreters with different PYTHONHASHSEED). *)
+Section Interp.
+  Variables (S D Rq M : Type).
+  Variable reseed : Z -> S.
+  Variable draw : Rq -> S -> D * S.
+
+  Record iproc := mkiproc { ip_hash : Z; ip_proc : proc S M }.
+
+  Definition hprog (R : Type) : Type := Z -> pprog D Rq M R.
+
+  Definition iexec {R} (p : hprog R) (w : iproc) : R * iproc :=
+    let '(r, w') := exec S D Rq M reseed draw (p (ip_hash w)) (ip_proc w) in (r, mkiproc (ip_hash w) w').
+
+  (* earlier programs of the same interpreter: arbitrary, and they may look at the hash seed too *)
+  Fixpoint irun_hist (h : list (hprog unit)) (w : iproc) : iproc :=
+    match h with
+    | [] => w
+    | p :: r => irun_hist r (snd (iexec p w))
+    end.
+
+  Definition hash_blind {R} (p : hprog R) : Prop :=
+    forall h h' w,
+      fst (exec S D Rq M reseed draw (p h) w) = fst (exec S D Rq M reseed draw (p h') w)
+      /\ pr_gen _ _ (snd (exec S D Rq M reseed draw (p h) w)) = pr_gen _ _ (snd (exec S D Rq M reseed draw (p h') w)).
+
+  Definition igeno_cmd {O} (legacy : bool) (seed : option Z) (body : hprog O) : hprog O :=
+    fun h => geno_cmd D Rq M legacy seed (body h).
+
+  (* --- a set of strings (IDs interned to Z).  [order h ins] = the order in which a set that was
+     filled by inserting [ins] one after the other is iterated in an interpreter with hash seed h.
+     The one thing known about it: it has the elements that were inserted ([order_ok]). *)
+  Variable order : Z -> list Z -> list Z.
+  Definition order_ok : Prop := forall h l x, In x (order h l) <-> In x l.
+
+  Definition memb (x : Z) (l : list Z) : bool := existsb (Z.eqb x) l.
+
+  (* simulate_pt, .snplist branch: `list(filter(lambda e: e.id in haplotype_ids, effects))` -
+     the lines of the file, in FILE order, whose ID is requested *)
+  Definition select_file_order {E} (eid : E -> Z) (req : list Z) (effects : list E) : list E :=
+    filter (fun e => memb (eid e) req) effects.
+
+  (* the excluded variant: `effects = {e.id: e for e in effects};
+     [effects[ID] for ID in haplotype_ids if ID in effects]` - the same effects in the iteration
+     order of the SET of requested IDs *)
+  Definition select_set_order {E} (eid : E -> Z) (req : list Z) (effects : list E) : list E :=
+    flat_map (fun i => match find (fun e => eid e =? i) (rev effects) with Some e => [e] | None => [] end) req.
+
+  (* simphenotype with requested IDs: the effects in the order in which they name the column and
+     enter the floating-point sum, and the noise of the replicates (pheno_cmd) *)
+  Definition pheno_sel_cmd {E} (select : list Z -> list E -> list E) (seed : option Z) (reqs : list Rq)
+             (ins : list Z) (effects : list E) : hprog (list E * list D) :=
+    fun h =>
+      let sel := select (order h ins) effects in
+      match seed with
+      | Some k => PRet (sel, fst (fst (replications S D Rq draw reqs (reseed k))))
+      | None => PEntropy (fun e => PRet (sel, fst (fst (replications S D Rq draw reqs (reseed e)))))
+      end.
+End Interp.
+
+(* a toy iteration order: interpreters with an even hash seed iterate in insertion order, the
+   others in reverse (so it also depends on the insertion order, as colliding strings do) *)
+Definition toy_order (h : Z) (l : list Z) : list Z := if Z.even h then l else rev l.
+(* a simulation whose output follows the iteration order of a set of two strings *)
+Definition set_iter_body : hprog Z unit Z Z :=
+  fun h => PDraw tt (fun d => PRet (d + hd 0 (toy_order h [1; 2]))).
